@@ -5,7 +5,7 @@ From V.c14 Require Import C14Model.
 From V.c15 Require Import C15Model C15HevcModel.
 From V.c17 Require Import C17Spec C17Model C17TypedModel.
 From V.c18 Require Import C18Model.
-From V.c16 Require Import C16Model C16ParseModel C16AuxModel C16SeiNaluModel C16ConfRecModel C16HevcParseModel C16HevcPipeModel C16Av1EncModel.
+From V.c16 Require Import C16Model C16ParseModel C16AuxModel C16SeiNaluModel C16ConfRecModel C16HevcParseModel C16HevcPipeModel C16Av1EncModel C16SeiStrModel.
 Require Import ExtrOcamlBasic.
 Separate Extraction
   avc_get_nalus_from_sample avc_find_nalu_types avc_find_nalu_types_upto
@@ -16,6 +16,7 @@ Separate Extraction
   C16Model.hpt_params C16Model.decode_pic_timing_hevc
   c16_parse_sps c16_parse_pps c16_parse_slice sps_lookup pps_lookup chroma_lookup get_slice_type
   parse_cea608_p decode_registered_p extract_cea608_p decode_unregistered_p mdcv_decode_p cll_decode_p
+  mdcv_payload_p cll_payload_p pass_string_cost
   extract_sei_data_go C17TypedModel.tc_decode C17TypedModel.pt_decode
   avc_pt_of_sps avc_parse_sei_nalu hevc_parse_sei_nalu
   avc_decode_dec_conf_rec hevc_decode_dec_conf_rec hevc_decode_full av1_decode_codec_conf_rec
